@@ -30,6 +30,7 @@ import (
 //   - allocation up to 1 MiB + 256 x len(input) per call. The decoder copies the
 //     remaining buffer at every nesting level, so allocation is quadratic in the
 //     nesting depth; inputs here are <= ~8 KiB where that stays inside the budget
+//     (the 32 KiB seed x:deepnest-32k shows the quadratic growth and is a known finding)
 //     (a 4 KiB 800-level nest is part of the workload to watch recursion depth);
 //   - version-1 relabelled v2 programs that decode to garbage instructions
 //     without panicking (semantic validity of v1 conversion is another property);
@@ -417,6 +418,10 @@ func (r *c18runner) assess(data []byte, e c18entry, o c18out) {
 			site, bytesAt = r.allocSite(e.f)
 		}
 		fp := "C18|alloc|" + site
+		if r.seed == "x:deepnest-32k" && r.mut == "seed" {
+			// the 32 KiB, ~7000-level nest of one-element arrays: the decoder copies the rest of the buffer at every level
+			fp = "C18|alloc|quadratic-in-nesting-depth|" + site
+		}
 		w := r.wit(data, o)
 		w.AllocDelta, w.Budget, w.AllocSite = o.delta, b, fmt.Sprintf("%s (%d bytes sampled by the heap profile)", site, bytesAt)
 		c.Violation(fp, fmt.Sprintf("%s allocates %d bytes for a %d-byte input (budget %d) at %s (seed %s, %s)", o.entry, o.delta, len(data), b, site, r.seed, r.mut), w)
@@ -1108,6 +1113,12 @@ func (m c18) Run(c *core.Ctx) {
 			sub2 = []string{"00", "ff", "+1", "80"}
 		} else if s.kind != c18kBC || i%5 == 0 {
 			sub2 = []string{"00", "ff", "+1"}
+		}
+		if s.id == "x:deepnest-32k" {
+			if part() {
+				r.do("seed", s, "seed", s.data)
+			}
+			continue
 		}
 		if strings.HasPrefix(s.id, "x:amplify") || s.id == "x:deepnest" {
 			// every decode of these allocates tens of MiB: the unmutated input and its truncations are the point
